@@ -367,4 +367,35 @@ theorem format_idempotent_fragment (t : T) (h : t.WF) (w : Nat) :
       print (programDoc t') w = print (programDoc t) w :=
   ⟨t, format_fixpoint_fragment t h w, rfl⟩
 
+open QM.Frag QM.Parse in
+/-- The model of `format_program` on the fragment returns the layout's text and a final newline:
+    `collapse_blanks` finds no blank line to merge and no trailing blank line to drop (every line of
+    a layout ends in a non-blank character), `expand_literals` finds no placeholder line (no line
+    starts, after its indentation, with NUL) and nothing panics. -/
+theorem fmtFrag_eq (t : T) (h : t.WF) :
+    fmtFrag t = renderPieces (printPieces (programDoc t) pageWidth) ++ ['\n'] := by
+  have hl := fragment_prints_layout t h pageWidth
+  have hp := post_passes_layP hl
+  unfold fmtFrag
+  rw [fragment_print_eq t h pageWidth, hp.1, hp.2]
+
+open QM.Frag QM.Parse in
+/-- C17 on the fragment, for the whole of `format_program` (layout at `WIDTH`, `collapse_blanks`,
+    `expand_literals`): parsing the formatted program gives the program back. -/
+theorem format_program_fixpoint_fragment (t : T) (h : t.WF) : programP (fmtFrag t) = .ok t [] := by
+  rw [fmtFrag_eq t h]
+  have hl := fragment_prints_layout t h pageWidth
+  generalize printPieces (programDoc t) pageWidth = ps at hl
+  have hp := termP_lay hl ((renderPieces ps ++ ['\n']).length + 1) ['\n']
+    (by simp; omega) (by simp [IdStop]; decide)
+  unfold programP
+  rw [seq_ok (wsc_headOk ((layP_head hl).append _))]
+  exact before_ok (b := ()) hp (by simp [QM.Parse.seq, QM.Parse.bind, wsc, skipWsc, isMultispace, peof])
+
+open QM.Frag QM.Parse in
+/-- … and formatting that again gives the same text: `format_program` is a fixpoint on the fragment. -/
+theorem format_program_idempotent_fragment (t : T) (h : t.WF) :
+    ∃ t', programP (fmtFrag t) = .ok t' [] ∧ fmtFrag t' = fmtFrag t :=
+  ⟨t, format_program_fixpoint_fragment t h, rfl⟩
+
 end C17
